@@ -441,9 +441,77 @@ void body_io(void*) {
   { usim::np_scope np; delete w; }
 }
 
+
+// ---- io_uring under ring pressure: more concurrently parked reads than the completion queue has entries (512):
+// the surplus waits in pendingIoQueue_; then every read is cancelled. All must complete (with done).
+void body_uring_flood(void*) {
+  using T = uring_traits;
+  using ctx_t = T::ctx_t;
+  struct FW {
+    arena_box<ctx_t> ctx;
+    unifex::inplace_stop_source run_stop;
+    int n = 0;
+    OpRec* rec = nullptr;
+    unifex::inplace_stop_source* stops = nullptr;
+    unsigned char* bufs = nullptr;
+  };
+  FW* w;
+  { usim::np_scope np; w = new FW(); }
+  static const int sizes[] = {40, 200, 500, 511, 512, 513, 520, 600};
+  w->n = sizes[draw(8)];
+  int nstoppers = draw_range(1, 2);
+  bool all_at_once = draw(2);
+  { usim::np_scope np; w->rec = new OpRec[w->n]; w->stops = new unifex::inplace_stop_source[w->n]; }
+  w->bufs = (unsigned char*)usim_alloc((size_t)w->n);
+  usim_sample("io_uring_flood: reads=%d stoppers=%d", w->n, nstoppers);
+  w->ctx.construct();
+  auto sched = w->ctx->get_scheduler();
+  int io_tid = -1;
+  std::thread io([w, &io_tid] { { usim::np_scope np; io_tid = usim_here(); } w->ctx->run(w->run_stop.get_token()); });
+  arena_box<T::Chan> chan_box;
+  T::Chan* chan = &chan_box.construct(sched);
+  using S = unifex::inline_scheduler;
+  using Snd = decltype(chan->read(w->bufs, 1));
+  started_op<S, Snd>* ops;
+  { usim::np_scope np; ops = new started_op<S, Snd>[w->n]; }
+  for (int i = 0; i < w->n; ++i) {
+    w->rec[i].what = "async_read_some_at";
+    w->rec[i].a = i;
+    w->rec[i].oracle_double = "c14.double";
+    w->rec[i].stop = &w->stops[i];
+    ops[i].start(&w->rec[i], S{}, chan->read(w->bufs + i, 1));
+    if (!all_at_once && i % 64 == 63) yields(3);
+  }
+  yields(draw_small(20));
+  std::thread stoppers[2];
+  for (int k = 0; k < nstoppers; ++k)
+    stoppers[k] = std::thread([w, k, nstoppers] {
+      for (int i = k; i < w->n; i += nstoppers) w->rec[i].request_stop();
+    });
+  for (int k = 0; k < nstoppers; ++k) stoppers[k].join();
+  for (int i = 0; i < w->n; ++i) { w->rec[i].wait(); ops[i].destroy(); }
+  chan_box.destroy();
+  w->run_stop.request_stop();
+  io.join();
+  w->ctx.destroy();
+  {
+    usim::np_scope np;
+    for (int i = 0; i < w->n; ++i) {
+      KIT_CHECK(w->rec[i].completions == 1, "c14.lost", "read %d of %d never completed", i, w->n);
+      KIT_CHECK(w->rec[i].channel == CH_DONE, "c14.done-without-stop", "read %d on an empty pipe completed with %s after its stop request", i, ch_name(w->rec[i].channel));
+    }
+    usim_probe(w->n > 512 ? "more reads parked than completion-queue entries" : "ring not exhausted");
+    delete[] ops;
+    delete[] w->rec;
+    delete[] w->stops;
+  }
+  usim_free(w->bufs);
+  { usim::np_scope np; delete w; }
+}
+
 }  // namespace
 
 int main(int argc, char** argv) {
-  static const usim_workload table[] = {{"io_epoll", body_io<epoll_traits>}, {"io_uring", body_io<uring_traits>}};
-  return usim_main(argc, argv, table, 2);
+  static const usim_workload table[] = {{"io_epoll", body_io<epoll_traits>}, {"io_uring", body_io<uring_traits>}, {"io_uring_flood", body_uring_flood}};
+  return usim_main(argc, argv, table, 3);
 }
